@@ -135,9 +135,14 @@ impl<'a> SolutionNode<'a> {
                         (*raw_ptr).no_backtracking = true;
                         // If there is a head solution node, set
                         // the no_backtracking flag there also.
+                        // (The head node may be this node itself, which
+                        // is already flagged. Writing to it through a raw
+                        // pointer would alias `&mut self`.)
                         if let Some(head_node) = &(*raw_ptr).head_sn {
                             let raw_ptr2 = head_node.as_ptr();
-                            (*raw_ptr2).no_backtracking = true;
+                            if !std::ptr::eq(raw_ptr2, self) {
+                                (*raw_ptr2).no_backtracking = true;
+                            }
                         }
                         // Get the next parent.
                         option_parent = &(*raw_ptr).parent_node;
